@@ -37,6 +37,7 @@ type pileCase struct {
 	ReAdd  []int   `json:"readd"`  // indices of pairs re-added (must be rejected)
 	ReFlip []bool  `json:"reflip"` // re-add in swapped orientation
 	Filter int     `json:"filter"` // score threshold of the filter used in the second Piles call
+	Calls  []int   `json:"calls,omitempty"` // a further sequence of Piles calls: 0 nil, 1 score filter, 2 reject all, 3 pile-aware filter
 	// PilePct parametrises a filter that looks at the piles of both images (as
 	// the filter in the package's own TestPiler does): a pair passes when each
 	// image covers at least PilePct percent of its pile. It is used on the
@@ -268,6 +269,65 @@ func identity(n int) []int {
 	return o
 }
 
+// pileFilter returns the filter of the package's own TestPiler (each image
+// covers at least PilePct percent of its pile) together with the verdict the
+// model components give for every pair.
+func pileFilter(c pileCase, pairs []*pals.Pair, exp []comp) (byPile, model func(*pals.Pair) bool) {
+	span := map[string]int{}
+	for _, cp := range exp {
+		for _, m := range cp.members {
+			span[m] = cp.to - cp.from
+		}
+	}
+	verdict := map[*pals.Pair]bool{}
+	for i, fp := range pairs {
+		if fp == nil {
+			continue
+		}
+		pt := c.Pairs[i]
+		verdict[fp] = (pt.A.E-pt.A.S)*100 >= c.PilePct*span[fmt.Sprintf("p%da", i)] &&
+			(pt.B.E-pt.B.S)*100 >= c.PilePct*span[fmt.Sprintf("p%db", i)]
+	}
+	covers := func(f *pals.Feature) bool {
+		pl, ok := f.Location().(*pals.Pile)
+		return ok && f.Len()*100 >= c.PilePct*pl.Len()
+	}
+	byPile = func(p *pals.Pair) bool { return covers(p.A) && covers(p.B) }
+	model = func(p *pals.Pair) bool { return verdict[p] }
+	return byPile, model
+}
+
+var callNames = []string{"nil", "score", "false", "pile"}
+
+// callSequence applies the generated sequence of Piles calls (any filter after
+// any other) to one piler and checks every result against the model.
+func callSequence(c pileCase, tag string, p *pals.Piler, pairs []*pals.Pair, exp []comp) *vlib.Failure {
+	all := func(*pals.Pair) bool { return true }
+	none := func(*pals.Pair) bool { return false }
+	byScore := func(p *pals.Pair) bool { return p.Score >= c.Filter }
+	byPile, model := pileFilter(c, pairs, exp)
+	hist := tag
+	for _, k := range c.Calls {
+		k = ((k % 4) + 4) % 4
+		hist += "/" + callNames[k]
+		var f *vlib.Failure
+		switch k {
+		case 0:
+			f = observe(hist, p.Piles(nil), pairs, all, exp)
+		case 1:
+			f = observe(hist, p.Piles(byScore), pairs, byScore, exp)
+		case 2:
+			f = observe(hist, p.Piles(none), pairs, none, exp)
+		default:
+			f = observe(hist, p.Piles(byPile), pairs, model, exp)
+		}
+		if f != nil {
+			return f
+		}
+	}
+	return nil
+}
+
 func check(c pileCase) *vlib.Failure {
 	all := func(*pals.Pair) bool { return true }
 	none := func(*pals.Pair) bool { return false }
@@ -319,31 +379,14 @@ func check(c pileCase) *vlib.Failure {
 			return f
 		}
 		exp3 := expected(c, acc3)
-		span := map[string]int{}
-		for _, cp := range exp3 {
-			for _, m := range cp.members {
-				span[m] = cp.to - cp.from
-			}
-		}
-		verdict := map[*pals.Pair]bool{}
-		for i, fp := range pairs3 {
-			if fp == nil {
-				continue
-			}
-			pt := c.Pairs[i]
-			verdict[fp] = (pt.A.E-pt.A.S)*100 >= c.PilePct*span[fmt.Sprintf("p%da", i)] &&
-				(pt.B.E-pt.B.S)*100 >= c.PilePct*span[fmt.Sprintf("p%db", i)]
-		}
-		covers := func(f *pals.Feature) bool {
-			pl, ok := f.Location().(*pals.Pile)
-			return ok && f.Len()*100 >= c.PilePct*pl.Len()
-		}
-		byPile := func(p *pals.Pair) bool { return covers(p.A) && covers(p.B) }
-		model := func(p *pals.Pair) bool { return verdict[p] }
+		byPile, model := pileFilter(c, pairs3, exp3)
 		if f := observe("order3/first-call-pile-filter", p3.Piles(byPile), pairs3, model, exp3); f != nil {
 			return f
 		}
 		if f := observe("order3/pile-filter-again", p3.Piles(byPile), pairs3, model, exp3); f != nil {
+			return f
+		}
+		if f := callSequence(c, "order3/then", p3, pairs3, exp3); f != nil {
 			return f
 		}
 	}
@@ -359,6 +402,9 @@ func check(c pileCase) *vlib.Failure {
 			return f
 		}
 		exp2 := expected(c, acc2)
+		if f := callSequence(c, "order2", p2, pairs2, exp2); f != nil {
+			return f
+		}
 		if f := observe("order2/nil-filter", p2.Piles(nil), pairs2, all, exp2); f != nil {
 			return f
 		}
@@ -417,6 +463,7 @@ func gen(t *rapid.T) pileCase {
 	c.ReAdd = rapid.SliceOfN(rapid.IntRange(0, n-1), 0, 3).Draw(t, "readd")
 	c.ReFlip = rapid.SliceOfN(rapid.Bool(), 1, 3).Draw(t, "reflip")
 	c.Filter = rapid.IntRange(0, 11).Draw(t, "filter")
+	c.Calls = rapid.SliceOfN(rapid.IntRange(0, 3), 0, 5).Draw(t, "piles-calls")
 	c.PilePct = rapid.SampledFrom([]int{0, 30, 50, 80, 95, 100}).Draw(t, "pile-pct")
 	return c
 }
@@ -489,6 +536,12 @@ func classes(c pileCase) []string {
 	if len(c.ReAdd) > 0 {
 		l = append(l, "re-add")
 	}
+	for i := 1; i < len(c.Calls); i++ {
+		if c.Calls[i] == 0 && c.Calls[i-1]%4 != 0 && c.Calls[i-1]%4 != 2 {
+			l = append(l, "unfiltered-call-after-partly-filtered-call")
+			break
+		}
+	}
 	// the pile-aware filter separates pairs (some pass, some do not) and some
 	// pair has its images on two locations
 	if c.PilePct > 0 {
@@ -524,5 +577,5 @@ func classes(c pileCase) []string {
 
 func TestPiles(t *testing.T) {
 	vlib.Run(t, vlib.Prop[pileCase]{Name: "piles-vs-union-find", Checks: 5000, Thorough: 480000, Gen: gen, Check: check, Classes: classes,
-		MinFrac: map[string]float64{"chained-component": 0.15, "duplicate-pair": 0.1, "abutting-features": 0.3, "zero-length-feature": 0.2, "pile-filter-splits": 0.2, "pile-filter-rejects-cross-location-pair": 0.2}})
+		MinFrac: map[string]float64{"chained-component": 0.15, "duplicate-pair": 0.1, "abutting-features": 0.3, "zero-length-feature": 0.2, "pile-filter-splits": 0.2, "pile-filter-rejects-cross-location-pair": 0.2, "unfiltered-call-after-partly-filtered-call": 0.1}})
 }
